@@ -137,3 +137,50 @@ Section Ask.
       now destruct (settled_desc (nd s1) r Hg1 Hs y Hdy1) as [[? _] _].
   Qed.
 End Ask.
+
+(* ------------------------------------------------------------------ one server cycle *)
+
+Section Cycle.
+  Variable gt : nat -> nat -> N -> N -> N * list cop.
+  Variable pl : nat -> nat -> N -> N -> list cop.
+  Hypothesis gt_pure : forall x k now prev, snd (gt x k now prev) = [].
+  Hypothesis pl_pure : forall x k now st, pl x k now st = [].
+
+  (* cycle_exact: when a tree is "pulsed at time now" by the manager -- recalculation sweep, then pulse sweep, as
+     ReflectServer does each time it wakes up -- in ANY reachable state: every attached node has been asked, the
+     reported wake-up time is the minimum of the requested times, and Pulse() runs on exactly the attached nodes
+     whose requested time is <= now, once each, with (now, requested time); each of them is invalid afterwards and
+     on its parent's needs-recalc list, so the next cycle asks it again *)
+  Theorem cycle_exact f s r now s' :
+    (now < NEVER)%N -> Good nobody (nd s) -> is_root (nd s) r = true ->
+    step gt pl f s (TCycle r now) = Some s' ->
+    exists s1 mn,
+      top_get gt f s r now = Some s1 /\ top_pulse pl f s1 r now = Some s' /\
+      hd_error (evs s1) = Some (EMin r mn) /\
+      (forall y, desc (nd s1) r y -> valid (nd s1 y) = true /\ (mn <= sched (nd s1 y))%N) /\
+      (exists y, desc (nd s1) r y /\ sched (nd s1 y) = mn) /\
+      Good nobody (nd s') /\
+      exists d, evs s' = d ++ evs s1 /\ NoDup (map ev_node d) /\
+        (forall e, In e d -> exists y k, e = EPulse y k now (sched (nd s1 y)) /\ desc (nd s1) r y /\ (sched (nd s1 y) <= now)%N) /\
+        (forall y, desc (nd s1) r y -> (sched (nd s1 y) <= now)%N -> exists k, In (EPulse y k now (sched (nd s1 y))) d) /\
+        (forall y, desc (nd s1) r y -> (sched (nd s1 y) <= now)%N ->
+                   valid (nd s' y) = false /\ (parent (nd s' y) <> None -> cur (nd s' y) = LRecalc)).
+  Proof.
+    intros Hnow Hg Hr H. simpl in H.
+    destruct (top_get gt f s r now) as [s1|] eqn:H1; [|discriminate].
+    destruct (recalc_min gt gt_pure f s r now s1 Hg Hr H1) as (mn & Hev & Hmn & Hg1 & Hall & Hatt & Hpar).
+    exists s1, mn. split; [reflexivity|]. split; [assumption|]. split; [assumption|]. split.
+    { intros y Hd. destruct (Hall y Hd) as [[Hv _] Hle]. auto. }
+    split; [assumption|].
+    (* the premises of pulse_exact at s1 *)
+    pose proof H1 as H1'. unfold top_get in H1'. rewrite Hr in H1'.
+    destruct (get_aux gt f now s r NEVER) as [[s0 mn0]|] eqn:Ha; [|discriminate]. inversion H1'; subst s1. simpl in *.
+    destruct (is_root_facts _ _ Hr) as [Hal Hp].
+    assert (Hrn : rn (cur (nd s r))) by (right; apply (wf_root _ _ (c_wf _ (i_core _ (g_inv _ _ Hg)))); assumption).
+    destruct (get_aux_spec gt gt_pure now f nobody s r NEVER s0 mn0 Hg Hrn Ha) as (_ & Hst & _ & Hv & Hlr & Hagg & _).
+    assert (Hr1 : is_root (nd s0) r = true).
+    { unfold is_root. destruct (Hst r) as [-> ->]. rewrite Hal, Hp. reflexivity. }
+    assert (Hset : settled (nd s0) r) by (split; assumption).
+    apply (pulse_exact pl pl_pure f (mkSt (nd s0) (EMin r mn0 :: evs s0)) r now s' Hnow Hg1 Hr1 Hset Hagg H).
+  Qed.
+End Cycle.
